@@ -127,6 +127,117 @@ fn main() {
 }
 
 
+# replay programs against the ldap3 crate itself (escape functions): kind -> main.rs
+TEMPLATES_LDAP3 = {
+    'dnesc': '''
+fn hexdig(n: u8) -> u8 { if n < 10 { b'0' + n } else { b'a' + (n - 10) } }
+// RFC 4514 2.4 (hex form): specials anywhere, leading space or '#', trailing space
+fn dn_esc(v: &[u8]) -> Vec<u8> {
+    let mut o = vec![];
+    for (i, &c) in v.iter().enumerate() {
+        let special = b"\\"+,;<=>\\\\\\0".contains(&c) || (i == 0 && (c == b' ' || c == b'#')) || (i + 1 == v.len() && c == b' ');
+        if special { o.push(b'\\\\'); o.push(hexdig(c >> 4)); o.push(hexdig(c & 15)); } else { o.push(c); }
+    }
+    o
+}
+fn main() {
+    let cands: Vec<Vec<u8>> = vec![{BYTES}];
+    let mut bad = 0;
+    for b in cands {
+        let s = match std::str::from_utf8(&b) { Ok(s) => s, Err(_) => { println!("{:02x?}: not UTF-8, skipped", b); continue; } };
+        let got = std::panic::catch_unwind(|| ldap3::dn_escape(s).into_owned());
+        let want = dn_esc(&b);
+        match got {
+            Err(_) => { println!("dn_escape({:?}) PANIC", s); bad += 1; }
+            Ok(g) => { let ok = g.as_bytes() == &want[..]; println!("dn_escape({:?}) = {:?} expected {:?} => {}", s, g, String::from_utf8_lossy(&want), if ok {"ok"} else {"WRONG"}); if !ok { bad += 1; } }
+        }
+    }
+    if bad > 0 { println!("REPLAY: property violated on the real code"); std::process::exit(1); }
+    println!("REPLAY: no violation reproduced");
+}
+''',
+    'ldapesc': '''
+fn hexdig(n: u8) -> u8 { if n < 10 { b'0' + n } else { b'a' + (n - 10) } }
+// RFC 4515 section 3: NUL ( ) * \\\\ as backslash + two hex digits
+fn esc(v: &[u8]) -> Vec<u8> {
+    let mut o = vec![];
+    for &c in v { if c == 0 || c == b'(' || c == b')' || c == b'*' || c == b'\\\\' { o.push(b'\\\\'); o.push(hexdig(c >> 4)); o.push(hexdig(c & 15)); } else { o.push(c); } }
+    o
+}
+fn main() {
+    let cands: Vec<Vec<u8>> = vec![{BYTES}];
+    let mut bad = 0;
+    for b in cands {
+        let s = match std::str::from_utf8(&b) { Ok(s) => s, Err(_) => { println!("{:02x?}: not UTF-8, skipped", b); continue; } };
+        let got = std::panic::catch_unwind(|| { let e = ldap3::ldap_escape(s).into_owned(); let u = ldap3::ldap_unescape(e.clone()).map(|c| c.into_owned()); (e, u) });
+        let want = esc(&b);
+        match got {
+            Err(_) => { println!("ldap_escape({:?}) PANIC", s); bad += 1; }
+            Ok((e, u)) => {
+                let ok = e.as_bytes() == &want[..] && matches!(&u, Ok(x) if x == s);
+                println!("ldap_escape({:?}) = {:?} expected {:?}; unescaped back: {:?} => {}", s, e, String::from_utf8_lossy(&want), u.as_ref().ok(), if ok {"ok"} else {"WRONG"});
+                if !ok { bad += 1; }
+            }
+        }
+    }
+    if bad > 0 { println!("REPLAY: property violated on the real code"); std::process::exit(1); }
+    println!("REPLAY: no violation reproduced");
+}
+''',
+}
+
+
+def _byte_buffers(vals, prefix=()):
+    """kani::any::<[u8; N]>() is played back one element at a time: runs of one-byte values form one buffer"""
+    bufs, cur = [], []
+    for v in vals:
+        if len(v) == 1:
+            cur.append(v[0])
+        else:
+            if cur:
+                bufs.append(cur)
+            cur = []
+            if 1 < len(v) < 8:
+                bufs.append(list(v))
+    if cur:
+        bufs.append(cur)
+    return [list(prefix) + b for b in bufs if b][:8]
+
+
+def run_ldap3_replay(kind, vals, repo):
+    """build a tiny crate depending on the real ldap3 crate (copied from repo's working tree), run it."""
+    bufs = _byte_buffers(vals or [])
+    if kind not in TEMPLATES_LDAP3 or not bufs:
+        return None
+    src = TEMPLATES_LDAP3[kind].replace('{BYTES}', ', '.join('vec![%s]' % ', '.join(str(b) for b in v) for v in bufs))
+    d = tempfile.mkdtemp(prefix='verif_replay_')
+    try:
+        os.makedirs(os.path.join(d, 'ldap3'))
+        for item in ('src', 'lber', 'Cargo.toml'):
+            sp = os.path.join(repo, item)
+            if os.path.isdir(sp):
+                shutil.copytree(sp, os.path.join(d, 'ldap3', item), ignore=shutil.ignore_patterns('target'))
+            else:
+                shutil.copy(sp, os.path.join(d, 'ldap3', item))
+        # the copied manifest declares a workspace of its own; the replay crate lives outside it
+        os.makedirs(os.path.join(d, 'rp', 'src'))
+        open(os.path.join(d, 'rp', 'Cargo.toml'), 'w').write(
+            '[package]\nname = "rp"\nversion = "0.0.0"\nedition = "2021"\n[dependencies]\n'
+            'ldap3 = { path = "../ldap3", default-features = false }\n[workspace]\n')
+        for cand in (os.path.join(repo, 'Cargo.lock'), '/repo/Cargo.lock'):
+            if os.path.exists(cand):
+                shutil.copy(cand, os.path.join(d, 'rp', 'Cargo.lock'))
+                break
+        open(os.path.join(d, 'rp', 'src', 'main.rs'), 'w').write(src)
+        p = subprocess.run(['cargo', 'run', '--offline', '-q'], cwd=os.path.join(d, 'rp'), stdout=subprocess.PIPE,
+                           stderr=subprocess.STDOUT, text=True, timeout=900, env=dict(os.environ, CARGO_NET_OFFLINE='true', RUSTFLAGS='-A warnings'))
+        return {'program': src, 'exit': p.returncode, 'output': p.stdout[-4000:]}
+    except Exception as e:  # noqa
+        return {'program': src, 'exit': None, 'output': 'replay build/run failed: %s' % e}
+    finally:
+        shutil.rmtree(d, ignore_errors=True)
+
+
 def _ints(vals, width):
     out = []
     for v in vals or []:
@@ -141,6 +252,8 @@ def run_replay_program(kind, vals, repo):
     if kind == 'lenhdr':
         # the harness buffer starts at the length octets: put an OCTET STRING identifier in front
         kind, prefix = 'parse', [4]
+    if kind in TEMPLATES_LDAP3:
+        return run_ldap3_replay(kind, vals, repo)
     if kind not in TEMPLATES or not vals:
         return None
     src = TEMPLATES[kind]
